@@ -250,6 +250,13 @@ func sysChild() {
 			out.Flush()
 			continue
 		}
+		if strings.HasPrefix(line, "syslong ") {
+			bts, _ := json.Marshal(runSysLong(root, line))
+			out.Write(bts)
+			out.WriteByte('\n')
+			out.Flush()
+			continue
+		}
 		if strings.HasPrefix(line, "syshotcold ") {
 			bts, _ := json.Marshal(runHotCold(root, line))
 			out.Write(bts)
@@ -668,6 +675,29 @@ func runSysBatch(lines []string, ch *vh.Channel, orc *vh.Oracle, rep *vh.Report,
 		if strings.HasPrefix(line, "grpc ") || strings.HasPrefix(line, "proxyreq ") {
 			orc.Case(line, true, "api-boundary")
 			handleAPI(line, append([]byte(nil), sc.Bytes()...), orc)
+			continue
+		}
+		if strings.HasPrefix(line, "syslong ") {
+			var br sysResp
+			if err := json.Unmarshal(sc.Bytes(), &br); err != nil {
+				orc.Error = "child output: " + err.Error()
+				break
+			}
+			orc.Case(line, true, "long-values-reloaded-sealed")
+			if br.Err != "" {
+				orc.Error = "syslong child: " + br.Err
+			} else if len(br.B) != 1 || br.B[0] != br.A {
+				as, bs := strings.Split(br.A, " ; "), strings.Split(strings.Join(br.B, ""), " ; ")
+				what := "answers differ"
+				for i := range as {
+					if i < len(bs) && as[i] != bs[i] {
+						what = fmt.Sprintf("one active fraction: %s ; sealed fractions re-read from disk: %s (values of 72+ bytes with a common 72-byte prefix)", as[i], bs[i])
+						break
+					}
+				}
+				rep.Violate(vh.Violation{Site: "frac/token/table_entry.go:TableEntry.Pack", Class: "long-values-lost-in-reloaded-sealed-fraction",
+					What: what, Replay: []string{line}})
+			}
 			continue
 		}
 		if strings.HasPrefix(line, "syshotcold ") {
